@@ -178,7 +178,7 @@ pub fn gen_cons(rng: &mut Rng, n_wallcons: usize, n_wincons: usize) -> ConsDb {
             id: uuid(rng),
             name: format!("glass{}", i),
             u_value: rng.dec(0.5, 5.8, 2) as f32,
-            g_gln: rng.dec(0.1, 0.9, 2) as f32,
+            g_gln: if rng.chance(0.08) { 0.0 } else { rng.dec(0.1, 0.9, 2) as f32 },
         });
     }
     let nf = 1 + rng.usize(3);
@@ -819,74 +819,117 @@ pub enum LinkKind {
 /// Redirects a random subset of links to nil or to an absent id; returns what was broken.
 pub fn break_links(rng: &mut Rng, m: &mut Model, p: f64, kinds: &[LinkKind]) -> Vec<(LinkKind, Uuid)> {
     let mut broken = vec![];
-    let mut bad = |rng: &mut Rng| if rng.chance(0.4) { Uuid::nil() } else { uuid(rng) };
+    // ids that exist in the model, by collection: a link may also be redirected to an element of the wrong kind
+    let pools: Vec<Vec<Uuid>> = vec![
+        m.spaces.iter().map(|x| x.id).collect(),            // 0 spaces
+        m.walls.iter().map(|x| x.id).collect(),             // 1 walls
+        m.cons.wallcons.iter().map(|x| x.id).collect(),     // 2 wall constructions
+        m.cons.wincons.iter().map(|x| x.id).collect(),      // 3 window constructions
+        m.cons.materials.iter().map(|x| x.id).collect(),    // 4 materials
+        m.cons.glasses.iter().map(|x| x.id).collect(),      // 5 glasses
+        m.cons.frames.iter().map(|x| x.id).collect(),       // 6 frames
+        m.loads.iter().map(|x| x.id).collect(),             // 7 loads
+        m.thermostats.iter().map(|x| x.id).collect(),       // 8 thermostats
+        m.schedules.year.iter().map(|x| x.id).collect(),    // 9 year
+        m.schedules.week.iter().map(|x| x.id).collect(),    // 10 week
+        m.schedules.day.iter().map(|x| x.id).collect(),     // 11 day
+    ];
+    let bad_for = |rng: &mut Rng, target: usize| -> Uuid {
+        match rng.usize(10) {
+            0..=3 => Uuid::nil(),
+            4..=7 => uuid(rng),
+            _ => {
+                // an existing id of another collection (the nearest sibling kind first: wall <-> window constructions ...)
+                let sibling = match target {
+                    2 => 3,
+                    3 => 2,
+                    5 => 6,
+                    6 => 5,
+                    7 => 8,
+                    8 => 7,
+                    9 => 10,
+                    10 => 11,
+                    11 => 10,
+                    0 => 1,
+                    1 => 0,
+                    _ => 2,
+                };
+                let pool = if rng.chance(0.6) && !pools[sibling].is_empty() { &pools[sibling] } else { &pools[(target + 1 + rng.usize(11)) % 12] };
+                let own = &pools[target];
+                match pool.get(rng.usize(pool.len().max(1))) {
+                    Some(id) if !own.contains(id) => *id,
+                    _ => uuid(rng),
+                }
+            }
+        }
+    };
     let has = |k: &LinkKind| kinds.contains(k);
     for w in m.walls.iter_mut() {
         if has(&LinkKind::WallSpace) && rng.chance(p) {
-            w.space = bad(rng);
+            w.space = bad_for(rng, 0);
             broken.push((LinkKind::WallSpace, w.id));
         }
         if has(&LinkKind::WallCons) && rng.chance(p) {
-            w.cons = bad(rng);
+            w.cons = bad_for(rng, 2);
             broken.push((LinkKind::WallCons, w.id));
         }
         if has(&LinkKind::WallNext) && w.next_to.is_some() && rng.chance(p) {
-            w.next_to = Some(bad(rng));
+            w.next_to = Some(bad_for(rng, 0));
             broken.push((LinkKind::WallNext, w.id));
         }
     }
     for w in m.windows.iter_mut() {
         if has(&LinkKind::WinWall) && rng.chance(p) {
-            w.wall = bad(rng);
+            w.wall = bad_for(rng, 1);
             broken.push((LinkKind::WinWall, w.id));
         }
         if has(&LinkKind::WinCons) && rng.chance(p) {
-            w.cons = bad(rng);
+            w.cons = bad_for(rng, 3);
             broken.push((LinkKind::WinCons, w.id));
         }
     }
     for c in m.cons.wallcons.iter_mut() {
         for l in c.layers.iter_mut() {
             if has(&LinkKind::LayerMat) && rng.chance(p) {
-                l.material = bad(rng);
+                l.material = bad_for(rng, 4);
                 broken.push((LinkKind::LayerMat, c.id));
             }
         }
     }
     for c in m.cons.wincons.iter_mut() {
         if has(&LinkKind::WinconsGlass) && rng.chance(p) {
-            c.glass = bad(rng);
+            c.glass = bad_for(rng, 5);
             broken.push((LinkKind::WinconsGlass, c.id));
         }
         if has(&LinkKind::WinconsFrame) && rng.chance(p) {
-            c.frame = bad(rng);
+            c.frame = bad_for(rng, 6);
             broken.push((LinkKind::WinconsFrame, c.id));
         }
     }
     for s in m.spaces.iter_mut() {
         if has(&LinkKind::SpaceLoads) && s.loads.is_some() && rng.chance(p) {
-            s.loads = Some(bad(rng));
+            s.loads = Some(bad_for(rng, 7));
             broken.push((LinkKind::SpaceLoads, s.id));
         }
         if has(&LinkKind::SpaceThermostat) && s.thermostat.is_some() && rng.chance(p) {
-            s.thermostat = Some(bad(rng));
+            s.thermostat = Some(bad_for(rng, 8));
             broken.push((LinkKind::SpaceThermostat, s.id));
         }
     }
     for l in m.loads.iter_mut() {
         if has(&LinkKind::LoadsSchedule) && l.people_schedule.is_some() && rng.chance(p) {
-            l.people_schedule = Some(bad(rng));
+            l.people_schedule = Some(bad_for(rng, 9));
             broken.push((LinkKind::LoadsSchedule, l.id));
         }
         if has(&LinkKind::LoadsSchedule) && l.lighting_schedule.is_some() && rng.chance(p) {
-            l.lighting_schedule = Some(bad(rng));
+            l.lighting_schedule = Some(bad_for(rng, 9));
             broken.push((LinkKind::LoadsSchedule, l.id));
         }
     }
     for y in m.schedules.year.iter_mut() {
         for v in y.values.iter_mut() {
             if has(&LinkKind::YearWeek) && rng.chance(p) {
-                v.0 = bad(rng);
+                v.0 = bad_for(rng, 10);
                 broken.push((LinkKind::YearWeek, y.id));
             }
         }
@@ -894,7 +937,7 @@ pub fn break_links(rng: &mut Rng, m: &mut Model, p: f64, kinds: &[LinkKind]) -> 
     for y in m.schedules.week.iter_mut() {
         for v in y.values.iter_mut() {
             if has(&LinkKind::WeekDay) && rng.chance(p) {
-                v.0 = bad(rng);
+                v.0 = bad_for(rng, 11);
                 broken.push((LinkKind::WeekDay, y.id));
             }
         }
